@@ -227,6 +227,166 @@ Proof.
 Qed.
 End RegistryProofs.
 
+Section RegistryGen.
+Variable sk : cfg_sk.
+Hypothesis Hok : cfg_struct_ok sk = true.
+
+Lemma gok_parts :
+  k_ord_names sk = [SCore; SExtra] /\ k_ord_defs sk = [SCore; SExtra] /\ k_ord_kinds sk = [SCore; SExtra]
+  /\ all3c (k_reset_props sk) = true
+  /\ all3x (k_reset_lists sk) = true /\ k_reset_calls_rp sk = true
+  /\ all3x (k_add_appends sk) = true /\ k_add_calls_rp sk = true.
+Proof.
+  pose proof Hok as H. unfold cfg_struct_ok in H.
+  do 7 (apply andb_true_iff in H; let h := fresh "P" in destruct H as [H h]).
+  repeat split; first [ assumption | apply ord_ok_eq; assumption ].
+Qed.
+
+(* the invariant linking the machine state to the paired specification list *)
+Definition gcoh {A} (c : option (list A)) (core extra : list A) : Prop :=
+  c = None \/ c = Some (core ++ extra).
+Record gInv (r : reg) (e : list (string * val)) : Prop := {
+  gi_xp : xp r = map fst e;
+  gi_xd : xd r = map snd e;
+  gi_xt : xt r = repeat (k_fkind sk) (length e);
+  gi_cP : gcoh (cP r) (k_core_names sk) (xp r);
+  gi_cD : gcoh (cD r) (k_core_defs sk) (xd r);
+  gi_cT : gcoh (cT r) (k_core_kinds sk) (xt r);
+  gi_nd : NoDup (map fst e)
+}.
+
+Lemma gall3c_parts l : all3c l = true -> cmem CP l = true /\ cmem CD l = true /\ cmem CT l = true.
+Proof. unfold all3c. intros H. repeat (apply andb_true_iff in H; destruct H as [H ?]). auto. Qed.
+Lemma gall3x_parts l : all3x l = true -> xmem XP l = true /\ xmem XD l = true /\ xmem XT l = true.
+Proof. unfold all3x. intros H. repeat (apply andb_true_iff in H; destruct H as [H ?]). auto. Qed.
+
+Lemma ginv_reset_properties r e :
+  xp r = map fst e -> xd r = map snd e -> xt r = repeat (k_fkind sk) (length e) -> NoDup (map fst e) ->
+  gInv (reset_properties sk r) e.
+Proof.
+  intros H1 H2 H3 H4.
+  destruct gok_parts as (_ & _ & _ & Hc & _).
+  destruct (gall3c_parts _ Hc) as (Ha & Hb & Hd).
+  unfold reset_properties. constructor; cbn; try assumption; rewrite ?Ha, ?Hb, ?Hd; left; reflexivity.
+Qed.
+
+Lemma ginv_read r e : gInv r e -> gInv (read sk r) e.
+Proof.
+  intros [H1 H2 H3 H4 H5 H6 H7].
+  destruct gok_parts as (On & Od & Ok_ & _).
+  constructor; cbn; try assumption.
+  - right. unfold vis_names. destruct H4 as [E|E]; rewrite E; [|reflexivity].
+    rewrite On, compose_std. reflexivity.
+  - right. unfold vis_defs. destruct H5 as [E|E]; rewrite E; [|reflexivity].
+    rewrite Od, compose_std. reflexivity.
+  - right. unfold vis_kinds. destruct H6 as [E|E]; rewrite E; [|reflexivity].
+    rewrite Ok_, compose_std. reflexivity.
+Qed.
+
+Lemma ginv_reset r e : gInv r e -> gInv (do_reset sk r) [].
+Proof.
+  intros _.
+  destruct gok_parts as (_ & _ & _ & _ & Hx & Hrp & _).
+  destruct (gall3x_parts _ Hx) as (Ha & Hb & Hd).
+  unfold do_reset. rewrite Hrp, Ha, Hb, Hd.
+  apply ginv_reset_properties; cbn; try reflexivity. constructor.
+Qed.
+
+(* the loop body preserves the data part of the invariant (caches are untouched by it) *)
+Lemma gadd_one_data r e pd :
+  xp r = map fst e -> xd r = map snd e -> xt r = repeat (k_fkind sk) (length e) -> NoDup (map fst e) ->
+  let r' := add_one sk r pd in let e' := spec_add_one e pd in
+  xp r' = map fst e' /\ xd r' = map snd e' /\ xt r' = repeat (k_fkind sk) (length e') /\ NoDup (map fst e')
+  /\ cP r' = cP r /\ cD r' = cD r /\ cT r' = cT r.
+Proof.
+  intros H1 H2 H3 H4 r' e'. subst r' e'. destruct pd as [p d].
+  destruct gok_parts as (_ & _ & _ & _ & _ & _ & Hx & _).
+  destruct (gall3x_parts _ Hx) as (Ha & Hb & Hd).
+  unfold add_one, spec_add_one. cbn [fst]. rewrite H1.
+  destruct (mem p (map fst e)) eqn:Em.
+  - repeat split; assumption.
+  - rewrite Ha, Hb, Hd. cbn [xp xd xt cP cD cT].
+    rewrite !map_app, app_length, H2, H3. cbn [map fst snd length].
+    repeat split; try reflexivity.
+    + rewrite repeat_app. reflexivity.
+    + apply mem_false in Em.
+      apply NoDup_snoc; assumption.
+Qed.
+
+Lemma gadd_fold_data pds : forall r e,
+  xp r = map fst e -> xd r = map snd e -> xt r = repeat (k_fkind sk) (length e) -> NoDup (map fst e) ->
+  let r' := fold_left (add_one sk) pds r in let e' := fold_left spec_add_one pds e in
+  xp r' = map fst e' /\ xd r' = map snd e' /\ xt r' = repeat (k_fkind sk) (length e') /\ NoDup (map fst e')
+  /\ cP r' = cP r /\ cD r' = cD r /\ cT r' = cT r.
+Proof.
+  induction pds as [|pd pds IH]; intros r e H1 H2 H3 H4; cbn [fold_left].
+  - repeat split; assumption.
+  - destruct (gadd_one_data r e pd H1 H2 H3 H4) as (A1 & A2 & A3 & A4 & A5 & A6 & A7).
+    destruct (IH _ _ A1 A2 A3 A4) as (B1 & B2 & B3 & B4 & B5 & B6 & B7).
+    repeat split; try assumption; congruence.
+Qed.
+
+Lemma ginv_add r e ps dv : gInv r e -> gInv (do_add sk ps dv r) (spec_step sk e (RAdd ps dv)).
+Proof.
+  intros [H1 H2 H3 H4 H5 H6 H7].
+  destruct gok_parts as (_ & _ & _ & _ & _ & _ & _ & Hrp).
+  unfold do_add. rewrite Hrp. cbn [spec_step].
+  destruct (gadd_fold_data (zip_defaults sk ps dv) r e H1 H2 H3 H7) as (A1 & A2 & A3 & A4 & _).
+  apply ginv_reset_properties; cbn [read_nd xp xd xt]; assumption.
+Qed.
+
+Lemma ginv_step r e o : gInv r e -> gInv (step sk r o) (spec_step sk e o).
+Proof.
+  intros H. destruct o as [ps dv| |]; cbn [step spec_step].
+  - apply ginv_add; exact H.
+  - eapply ginv_reset; exact H.
+  - apply ginv_read; exact H.
+Qed.
+
+Lemma ginv_run ops : forall r e, gInv r e -> gInv (run sk ops r) (spec_run sk ops e).
+Proof.
+  induction ops as [|o ops IH]; intros r e H; cbn [run spec_run fold_left]; [exact H|].
+  apply IH. apply ginv_step. exact H.
+Qed.
+
+Lemma ginv0 : gInv reg0 [].
+Proof. constructor; cbn; try reflexivity; try (left; reflexivity). Qed.
+
+Lemma ginv_visible r e : gInv r e ->
+  vis_names sk r = (k_core_names sk) ++ map fst e
+  /\ vis_defs sk r = (k_core_defs sk) ++ map snd e
+  /\ vis_kinds sk r = (k_core_kinds sk) ++ repeat (k_fkind sk) (length e).
+Proof.
+  intros [H1 H2 H3 H4 H5 H6 H7].
+  destruct gok_parts as (On & Od & Ok_ & _).
+  unfold vis_names, vis_defs, vis_kinds. repeat split.
+  - destruct H4 as [E|E]; rewrite E; [rewrite On, compose_std|]; rewrite H1; reflexivity.
+  - destruct H5 as [E|E]; rewrite E; [rewrite Od, compose_std|]; rewrite H2; reflexivity.
+  - destruct H6 as [E|E]; rewrite E; [rewrite Ok_, compose_std|]; rewrite H3; reflexivity.
+Qed.
+
+Theorem registry_gen_aux : forall ops, registry_spec_gen sk ops.
+Proof.
+  intros ops. unfold registry_spec_gen.
+  pose proof (ginv_run ops reg0 [] ginv0) as HI.
+  destruct (ginv_visible _ _ HI) as (V1 & V2 & V3).
+  repeat split; try assumption. exact (gi_nd _ _ HI).
+Qed.
+End RegistryGen.
+
+(* whatever the configured core fields, dtypes and default values are: a history of add / reset / read
+   changes the extra fields only *)
+Theorem registry_gen : forall sk, cfg_struct_ok sk = true -> forall ops, registry_spec_gen sk ops.
+Proof. intros sk H. exact (registry_gen_aux sk H). Qed.
+
+Lemma cfg_ok_struct sk : cfg_ok sk = true -> cfg_struct_ok sk = true.
+Proof.
+  intros H. unfold cfg_ok in H. unfold cfg_struct_ok.
+  do 12 (apply andb_true_iff in H; let h := fresh "P" in destruct H as [H h]).
+  rewrite P6, P5, P4, P3, P2, P1, P0, P. reflexivity.
+Qed.
+
+
 Theorem cfg_ok_sound : forall sk, cfg_ok sk = true -> forall ops, registry_spec sk ops.
 Proof. intros sk H. exact (cfg_ok_sound_aux sk H). Qed.
 
